@@ -104,20 +104,41 @@ where
     | .nil, .nil, _ => none
     | _, _, _ => some "len"
 
-/-- the top-level field whose encoding contains byte offset `off` of the body (fields after the body: `tags`). -/
-def fieldAtOffset (ver : Int) (top : Top) (v : Val) (off : Nat) : String :=
-  match top.ty, v with
-  | .struct _ ff fs, .stru vals _ =>
+/-- the schema path (field names, element indices) of the value whose encoding (by the interpreter) contains byte offset `off`;
+`<len>` is an array length prefix, `<tags>` the tag section of a struct. -/
+partial def locate (ver : Int) (flex : Bool) : Ty → Val → Nat → String
+  | .struct nullable ff fs, .stru vals _, off =>
     let fl := flexAt ff ver
+    let start := if nullable then 1 else 0
+    if off < start then "<present>" else
     let rec go : Fields → Vals → Nat → String
       | .cons name minV maxV tag _ t rest, .cons x r, pos =>
         if tag.isSome || !present minV maxV ver then go rest r pos
         else
           let n := match enc ver fl t x with | some b => b.length | none => 0
-          if off < pos + n then name else go rest r (pos + n)
-      | _, _, _ => "tags"
-    go fs vals 0
-  | _, _ => "?"
+          if off < pos + n then
+            let sub := locate ver fl t x (off - pos)
+            if sub == "" then name else name ++ "." ++ sub
+          else go rest r (pos + n)
+      | _, _, _ => "<tags>"
+    go fs vals start
+  | .arr k t, .list vs, off =>
+    let h := (encArrHdr ver flex k false vs.length).length
+    if off < h then "<len>" else
+    let rec goL : Vals → Nat → Nat → String
+      | .cons x r, i, pos =>
+        let n := match enc ver flex t x with | some b => b.length | none => 0
+        if off < pos + n then
+          let sub := locate ver flex t x (off - pos)
+          if sub == "" then s!"[{i}]" else s!"[{i}]." ++ sub
+        else goL r (i + 1) (pos + n)
+      | .nil, i, _ => s!"[{i}]"
+    goL vs 0 h
+  | _, _, _ => ""
+
+def fieldAtOffset (ver : Int) (top : Top) (v : Val) (off : Nat) : String :=
+  let p := locate ver false top.ty v off
+  if p == "" then "?" else p
 
 def firstDiff (a b : Bytes) : Nat :=
   let rec go : Bytes → Bytes → Nat → Nat
